@@ -18,6 +18,14 @@ res = ['delta', num, den] | ['none'] | ['raise'] | ['stop'] | ['str']
 op  = ['sleep', ms] | ['sched', tid, num, den] | ['abs', tid, num, den] (offset from the
       scenario base time) | ['clear'] | ['tempo', num, den] | ['osc'] | ['xsched', tid, num, den]
       (nested only: schedule on SystemClock from another clock's task)
+      | ['beats_add', num, den]  (clock.beats = clock.beats + x)
+      | ['via', 'sys'|'app'|'aux', op]  (perform op on the scenario's clock from a task running on ANOTHER clock:
+        SystemClock, AppClock, or a second TempoClock 'aux')
+      | ['osc_do', op]  (send a datagram to the library port; op is performed by the receive function, i.e. in the
+        task that the OSC receive thread schedules on SystemClock)
+      | ['nolock', op]  (client thread: tempo/beats change WITHOUT taking the main lock first; only without proxies)
+A tempo/beats change is logged as tempo_req ... [notify tempo] ... tempo_done(fields): the field update and the
+notify of the clock's condition are separate events, so a skipped notify is visible in the trace.
 """
 import json, logging, math, os, socket, sys, threading, time
 from fractions import Fraction
@@ -195,9 +203,7 @@ class CondProxy:
             PROBLEMS.append('notify without the main lock')
         name = sys._getframe(2).f_code.co_name
         if name in ('tempo', 'etempo', 'beats'):
-            c = self.clock
-            LOG.append((self.cid, 'tempo', fr(c._tempo), fr(c._base_seconds), fr(c._base_beats),
-                        fr(c._beat_dur)))
+            LOG.append((self.cid, 'notify', 'tempo'))
         elif name == '_sched_add':
             LOG.append((self.cid, 'notify', 'sched'))
         elif name == 'clear':
@@ -353,6 +359,8 @@ class Run:
         self.clock = None
         self.base = None
         self.final_done_at = None
+        self.aux = None
+        self.cid = None
 
     def make_task(self, tid, spec):
         run = self
@@ -406,15 +414,54 @@ class Run:
                 t0 = real_now()
                 c.clear()
                 self.scheds.append([who, None, 'clear', None, t0, real_now()])
-            elif k == 'tempo':
-                with main._main_lock:
-                    c.tempo = float(Fraction(op[1], op[2]))
+            elif k in ('tempo', 'beats_add'):
+                self.retime(op, who, lock=True)
+            elif k == 'nolock':
+                self.retime(op[1], who, lock=PROXIES)
+            elif k == 'via':
+                vc = {'sys': clk.SystemClock, 'app': clk.AppClock, 'aux': self.aux}[op[1]]
+                inner, tag = op[2], 'via-' + op[1]
+
+                def helper():
+                    self.do_op(inner, tag)
+                f = fn.Function(helper)
+                KEEP.append(f)
+                vc.sched(0, f)
+            elif k == 'osc_do':
+                OSC_PENDING.append((self, op[1]))
+                s = socket.socket(socket.AF_INET, socket.SOCK_DGRAM)
+                s.sendto(b'/c08do\x00\x00,\x00\x00\x00', ('127.0.0.1', main._osc_interface.port))
+                s.close()
             elif k == 'osc':
                 s = socket.socket(socket.AF_INET, socket.SOCK_DGRAM)
                 s.sendto(b'/c08\x00\x00\x00\x00,\x00\x00\x00', ('127.0.0.1', main._osc_interface.port))
                 s.close()
         except Exception as e:
             self.errors.append('%s: %s %r' % (who, op, e))
+
+    def retime(self, op, who, lock):
+        c = self.clock
+        cid = self.cid
+
+        def change():
+            t0 = real_now()
+            if PROXIES:
+                LOG.append((cid, 'tempo_req', op[0]))
+            try:
+                if op[0] == 'tempo':
+                    c.tempo = float(Fraction(op[1], op[2]))
+                else:
+                    c.beats = c.beats + float(Fraction(op[1], op[2]))
+            finally:
+                if PROXIES:
+                    LOG.append((cid, 'tempo_done', fr(c._tempo), fr(c._base_seconds), fr(c._base_beats),
+                                fr(c._beat_dur)))
+            self.scheds.append([who, None, op[0], [op[1], op[2]], t0, real_now()])
+        if lock:
+            with main._main_lock:
+                change()
+        else:
+            change()
 
     def cut(self, cids):
         """snapshot and reset the log while holding the library's lock(s)"""
@@ -468,6 +515,9 @@ class Run:
             else:
                 time.sleep(0.03)
         c = self.clock
+        self.cid = cid
+        if '"aux"' in json.dumps(sc):
+            self.aux = clk.TempoClock(1.0)
         for tid, spec in sc['tasks'].items():
             self.tasks[int(tid)] = self.make_task(int(tid), spec)
         self.base = Fraction(main.elapsed_time()) + Fraction(1, 16)
@@ -523,6 +573,11 @@ class Run:
         else:
             alive = c._thread.is_alive()
         log = self.cut([cid])
+        if self.aux is not None:
+            try:
+                self.aux.stop()
+            except Exception:
+                pass
         return {'name': sc['name'], 'clock': kind, 'cid': cid, 'init_map': init_map,
                 'base': fr(self.base), 'log': [list(e) for e in log if e[0] == cid],
                 'other': sorted(set(str(e[0]) for e in log if e[0] != cid)),
@@ -571,8 +626,19 @@ class Run:
         return res
 
 
+OSC_PENDING = []
+
+
+def osc_recv(msg, time_, addr, port):
+    # runs inside the task that the OSC receive thread scheduled on SystemClock
+    if msg and msg[0] == '/c08do' and OSC_PENDING:
+        run, op = OSC_PENDING.pop(0)
+        run.do_op(op, 'osc')
+
+
 def main_():
     install()
+    main.add_osc_recv_func(osc_recv)
     out = []
     for sc in inp['scenarios']:
         del PROBLEMS[:]
